@@ -410,6 +410,12 @@ theorem frame (σ : State) (hwf : WF σ) (s : Step) (hl : lazyPrep σ s = none) 
     (∀ a, deepLookup (step σ s).1 c a = deepLookup σ c a) ∧ propsOf (step σ s).1 c = propsOf σ c :=
   frame_of_pre σ _ hwf (step_pre σ s hl) c hc
 
+/-- the strongest true restriction of `C06_Full` (below): the explicit, decidable guard is
+    "the step is not the first plain instantiation of an unprepared compound class" -/
+theorem frame_partial (σ : State) (hwf : WF σ) (s : Step) (hl : lazyPrep σ s = none) (c : ClassId)
+    (a : Attr) (hc : c < σ.classes.length) : deepLookup (step σ s).1 c a = deepLookup σ c a :=
+  (frame σ hwf s hl c hc).1 a
+
 /-- … and the same as the runner's decidable check -/
 theorem frame_observe (σ : State) (hwf : WF σ) (s : Step) (hl : lazyPrep σ s = none) (c : ClassId)
     (hc : c < σ.classes.length) : observe (step σ s).1 c = observe σ c := by
